@@ -303,10 +303,68 @@ static void prange_mode(int n) {
   }
 }
 
+// cmask <seed> <n>: the real mi_commit_mask_create for every start bit and a set of lengths (edges of the 64-bit fields, the rest of the
+// mask, random ones); prints the eight fields for the comparison with the regenerated function (Gen/Loops.lean)
+static void cmask_mode(int n) {
+  long lines = 0;
+  for (size_t bitidx = 0; bitidx < MI_COMMIT_MASK_BITS; bitidx++) {
+    size_t room = MI_COMMIT_MASK_BITS - bitidx;
+    size_t lens[14] = { 0, 1, 2, 63, 64, 65, 127, 128, 129, room, room > 1 ? room - 1 : 1, 1 + (size_t)(rnd() % room), 1 + (size_t)(rnd() % room), 1 + (size_t)(rnd() % room) };
+    for (int j = 0; j < 14 && lines < n; j++) {
+      size_t bitcount = lens[j]; if (bitcount > room) continue;
+      if (bitcount == MI_COMMIT_MASK_BITS && bitidx != 0) continue;
+      mi_commit_mask_t cm; for (size_t i = 0; i < MI_COMMIT_MASK_FIELD_COUNT; i++) cm.mask[i] = 0x5a5a5a5a5a5a5a5aULL;   // whatever was there before
+      mi_commit_mask_create(bitidx, bitcount, &cm);
+      printf("CM %zu %zu ->", bitidx, bitcount);
+      for (size_t i = 0; i < MI_COMMIT_MASK_FIELD_COUNT; i++) printf(" %llu", (unsigned long long)cm.mask[i]);
+      printf("\n"); lines++;
+      for (size_t k = 0; k < MI_COMMIT_MASK_BITS; k++) { int bit = (int)((cm.mask[k / 64] >> (k % 64)) & 1); int want = (k >= bitidx && k < bitidx + bitcount); if (bit != want) { FAIL("commit_mask_create_wrong_bit", "create(%zu,%zu): bit %zu is %d", bitidx, bitcount, k, bit); break; } }
+    }
+  }
+}
+
+// csize <seed> <n>: the real _mi_commit_mask_committed_size on full, nearly full, sparse, random and empty masks
+static void csize_mode(int n) {
+  static const size_t TOT[] = { MI_SEGMENT_SIZE, 512, 0, 512 * 4096, (size_t)1 << 40, 1000 };
+  for (int it = 0; it < n; it++) {
+    mi_commit_mask_t cm;
+    unsigned shape = (unsigned)(rnd() % 8);
+    for (size_t i = 0; i < MI_COMMIT_MASK_FIELD_COUNT; i++) {
+      uint64_t w;
+      switch (shape) {
+        case 0: w = ~(uint64_t)0; break;
+        case 1: w = ~(uint64_t)0; break;                     // one bit cleared below
+        case 2: w = 0; break;
+        case 3: w = rnd() & rnd() & rnd(); break;
+        case 4: w = rnd() | rnd() | rnd(); break;
+        case 5: w = (rnd() & 1) ? ~(uint64_t)0 : rnd(); break;
+        default: w = rnd();
+      }
+      cm.mask[i] = (size_t)w;
+    }
+    if (shape == 1) { size_t k = (size_t)(rnd() % 512); cm.mask[k / 64] &= ~((size_t)1 << (k % 64)); }
+    size_t total = TOT[rnd() % 6];
+    size_t r = _mi_commit_mask_committed_size(&cm, total);
+    printf("CS %zu", total);
+    for (size_t i = 0; i < MI_COMMIT_MASK_FIELD_COUNT; i++) printf(" %llu", (unsigned long long)cm.mask[i]);
+    printf(" -> %zu\n", r);
+    int full = 1; for (size_t i = 0; i < MI_COMMIT_MASK_FIELD_COUNT; i++) if (~cm.mask[i] != 0) full = 0;
+    if (total > 0 && total % 512 == 0 && (r == total) != (full != 0)) FAIL("committed_size_total_without_full_mask", "total %zu result %zu full %d", total, r, full);
+  }
+}
+
 int main(int argc, char** argv) {
   if (argc < 3) { fprintf(stderr, "usage: c07 seg|arena|count|enum ...\n"); return 2; }
   setvbuf(stdout, NULL, _IOLBF, 0);
   mi_option_set(mi_option_show_errors, 0); mi_option_set(mi_option_verbose, 0);
+  if (strcmp(argv[1], "csize") == 0) {
+    uint64_t seed = strtoull(argv[2], 0, 10); rs ^= seed * 0x9E3779B97F4A7C15ULL; if (!rs) rs = 1; for (int i = 0; i < 8; i++) rnd();
+    csize_mode(argc > 3 ? atoi(argv[3]) : 4000); printf("DONE fails %d\n", nfail); return 0;
+  }
+  if (strcmp(argv[1], "cmask") == 0) {
+    uint64_t seed = strtoull(argv[2], 0, 10); rs ^= seed * 0x9E3779B97F4A7C15ULL; if (!rs) rs = 1; for (int i = 0; i < 8; i++) rnd();
+    cmask_mode(argc > 3 ? atoi(argv[3]) : 8000); printf("DONE fails %d\n", nfail); return 0;
+  }
   if (strcmp(argv[1], "prange") == 0) {
     uint64_t seed = strtoull(argv[2], 0, 10); rs ^= seed * 0x9E3779B97F4A7C15ULL; if (!rs) rs = 1; for (int i = 0; i < 8; i++) rnd();
     prange_mode(argc > 3 ? atoi(argv[3]) : 500); printf("DONE fails %d\n", nfail); return 0;
